@@ -106,6 +106,13 @@ def generate(streams: core.Streams, tier: str) -> dict:
     rich = gen.chance(w, 0.35)
     n = w.randint(1, 5)
     specs = [_spec(w, i, rich) for i in range(n)]
+    # placeholder variant (drawn after the specs): the rules' value is a placeholder that every user pipeline
+    # can resolve from the variables - which are those of the *composed* pipeline, later ones overriding
+    ph = (not rich) and gen.chance(w, 0.3)
+    if ph:
+        for i, sp in enumerate(specs):
+            sp["vars"].setdefault("v", f"p{i}")
+            sp["transformations"].insert(0, {"type": "value_placeholders", "include": ["v"]})
     backend_pipeline = {"vars": {"v": "B", "kB": "B"},
                         "transformations": [{"type": "field_name_prefix", "prefix": "B."},
                                             {"type": "set_state", "key": "index", "val": "B"}],
@@ -157,23 +164,23 @@ def generate(streams: core.Streams, tier: str) -> dict:
             regs.append(reg)
         elif r < 0.84 and (regs or names):
             ops.append({"op": "UseInBackend", "src": gen.pick(s, regs + names),
-                        "format": gen.pick(s, ["default", "alt", None])})
+                        "format": gen.pick(s, ["default", "alt", None, "doc"])})
         elif r < 0.92 and (regs or names):
             # one long-lived backend object: its user pipeline is replaced, then it converts again
             ops.append({"op": "CheckLongLived", "src": gen.pick(s, regs + names),
-                        "format": gen.pick(s, ["default", "alt", None])})
+                        "format": gen.pick(s, ["default", "alt", None, "doc"])})
         else:
             if regs or names:
                 ops.append({"op": gen.pick(s, ["Check", "CheckDirect"]),
                             "src": gen.pick(s, regs + names if gen.chance(s, 0.3) else (regs or names)),
-                            "format": gen.pick(s, ["default", "alt", None])})
+                            "format": gen.pick(s, ["default", "alt", None, "doc"])})
     target = regs[-1] if regs else names[0]
-    ops.append({"op": gen.pick(s, ["Check", "Check", "CheckDirect"]), "src": target, "format": gen.pick(s, ["default", "alt", None])})
+    ops.append({"op": gen.pick(s, ["Check", "Check", "CheckDirect"]), "src": target, "format": gen.pick(s, ["default", "alt", None, "doc"])})
     if regs and gen.chance(s, 0.6):
         # an older composite or an operand, after later compositions took over (some of) its items
         ops.append({"op": gen.pick(s, ["Check", "CheckDirect", "CheckDirect"]), "src": gen.pick(s, regs + names),
-                    "format": gen.pick(s, ["default", "alt", None])})
-    return {"rich": rich, "specs": specs, "backend_pipeline": backend_pipeline,
+                    "format": gen.pick(s, ["default", "alt", None, "doc"])})
+    return {"rich": rich, "ph": ph, "specs": specs, "backend_pipeline": backend_pipeline,
             "format_pipeline": format_pipeline, "default_format_pipeline": default_format_pipeline, "ops": ops}
 
 
@@ -254,7 +261,7 @@ def _applies(item: dict, product: str) -> bool:
 def predict(sc: dict, idx: list[int], fmt: str) -> Any:
     """Oracle A: the complete conversion output predicted from the specs alone."""
     chain = [sc["backend_pipeline"]] + [sc["specs"][i] for i in idx] + ([sc["format_pipeline"]] if fmt == "alt" else [])
-    if fmt != "alt" and sc.get("default_format_pipeline"):
+    if fmt in ("default", None) and sc.get("default_format_pipeline"):
         chain.append(sc["default_format_pipeline"])  # also when the format is implicit (None)
     merged: dict[str, Any] = {}
     for p in chain:
@@ -270,7 +277,8 @@ def predict(sc: dict, idx: list[int], fmt: str) -> Any:
                     prefix = t["prefix"] + prefix
                 elif t["type"] == "set_state":
                     index = t["val"]
-        q = f'<{title}> {prefix}User="x" | idx={index} | fields=[]'
+        val = str(merged.get("v")) if sc.get("ph") else "x"
+        q = f'<{title}> {prefix}User="{val}" | idx={index} | fields=[]'
         if fmt == "alt":
             q = f"ALT#0[{q}]"
         for p in chain:
@@ -283,6 +291,8 @@ def predict(sc: dict, idx: list[int], fmt: str) -> Any:
                     q = q + " ~V=" + str(merged.get("v", ""))
         queries.append(q)
     out: Any = queries
+    if fmt == "doc":
+        out = " ## ".join(queries)  # the format renders one document; the finalizers get that
     for p in chain:
         for f in p.get("finalizers", []):
             tag = f["template"].split(" ")[0][1:]
@@ -294,6 +304,10 @@ def predict_direct(sc: dict, idx: list[int]) -> Any:
     """Oracle A for direct use of a pipeline object (apply / postprocess_query / finalize without a backend
     pipeline around it)."""
     chain = [sc["specs"][i] for i in idx]
+    merged: dict[str, Any] = {}
+    for p in chain:
+        merged.update(p.get("vars", {}))
+    val = str(merged.get("v")) if sc.get("ph") else "x"
     queries, states = [], []
     for title, product in TITLES:
         prefix, state = "", {}
@@ -305,7 +319,7 @@ def predict_direct(sc: dict, idx: list[int]) -> Any:
                     prefix = t["prefix"] + prefix
                 elif t["type"] == "set_state":
                     state[t["key"]] = t["val"]
-        q = f'{prefix}User="x"'
+        q = f'{prefix}User="{val}"'
         for p in chain:
             for t in p.get("postprocessing", []):
                 if _applies(t, product) and t["type"] == "embed":
@@ -324,8 +338,9 @@ def predict_direct(sc: dict, idx: list[int]) -> Any:
 # worlds
 
 
-def _docs() -> list[dict]:
-    return [{"title": t, "logsource": {"product": p}, "detection": {"sel": {"User": "x"}, "condition": "sel"}}
+def _docs(ph: bool = False) -> list[dict]:
+    item = {"User|expand": "%v%"} if ph else {"User": "x"}
+    return [{"title": t, "logsource": {"product": p}, "detection": {"sel": dict(item), "condition": "sel"}}
             for t, p in TITLES]
 
 
@@ -350,7 +365,7 @@ def _convert(sc: dict, cls: Any, pipeline: Any, fmt: str) -> dict:
     from sigsim import world
 
     b = cls(pipeline)
-    return world.capture(lambda: b.convert(world.load_collection(_docs_rich() if sc["rich"] else _docs()), fmt))
+    return world.capture(lambda: b.convert(world.load_collection(_docs_rich() if sc["rich"] else _docs(bool(sc.get("ph")))), fmt))
 
 
 def _direct(sc: dict, pipeline: Any) -> dict:
@@ -359,7 +374,7 @@ def _direct(sc: dict, pipeline: Any) -> dict:
     from sigsim import simbackend, world
 
     def run() -> Any:
-        coll = world.load_collection(_docs_rich() if sc["rich"] else _docs())
+        coll = world.load_collection(_docs_rich() if sc["rich"] else _docs(bool(sc.get("ph"))))
         states, queries = [], []
         for rule in coll.rules:
             pipeline.apply(rule)
@@ -496,7 +511,7 @@ def execute(scenario: dict) -> dict:
                         objs["long"] = cls(None)
                     lb = objs["long"]
                     lb.processing_pipeline = o
-                    got = world.capture(lambda: lb.convert(world.load_collection(_docs_rich() if sc["rich"] else _docs()), op["format"]))
+                    got = world.capture(lambda: lb.convert(world.load_collection(_docs_rich() if sc["rich"] else _docs(bool(sc.get("ph")))), op["format"]))
                     core.merge_counts(faults, {"history:long_lived_backend_gets_another_user_pipeline": 1})
                 elif direct:
                     got = _direct(sc, o)
